@@ -146,9 +146,23 @@ def worker_main(argv):
     json.dump(agg, out, default=str)
     out.close()
     faulthandler.cancel_dump_traceback_later()
+    _remove_process_scratch()
     # daemon sim threads may be parked after a harness error: leave hard
     sys.stdout.flush()
     os._exit(0)
+
+
+def _remove_process_scratch():
+    """os._exit skips atexit handlers: remove what this process keeps under the scratch base
+    (per-run trees are removed by the runs; the C19 template datasets live as long as the
+    worker)."""
+    import glob
+    import shutil
+
+    from . import seams
+    for d in glob.glob(os.path.join(seams.SCRATCH_BASE, f"spverif-tmpl-{os.getpid()}-*")) + \
+            glob.glob(os.path.join(seams.SCRATCH_BASE, f"spverif-{os.getpid()}")):
+        shutil.rmtree(d, ignore_errors=True)
 
 
 def _with_regressions(pid, stream, nworkers):
